@@ -295,7 +295,7 @@ func runC04(c *core.Ctx) {
 	c.Rule("C04.errside", "(b)(g): after a failed left evaluation the entry returns ErrSide{error: that error, IsLeft:true} and nothing else; after a failed right one IsRight:true only; no operand value is returned on an error path")
 	c.Rule("C04.result", "(c)(d)(e): on success the entry returns resultContainer{<Kind>Value: term, Is<Kind>Value: true} where Kind is returnType's kind and term is the key's Go operator applied to left and right, converting exactly the int side of a mixed int/float pair")
 	c.Rule("C04.shortcircuit", "(f): AND returns false without evaluating the right operand when the left is false, OR returns true when the left is true; otherwise the right operand decides")
-	c.Rule("C04.respec", "A1: EvalBinaryNode.eval: a node without an evaluation function refreshes the operand types from the current scope and looks the function up again before reporting a mismatch (the answer for a point never depends on earlier points' types); a type-guard error rewrites exactly the side(s) named by the error with ActualType, re-looks-up and retries unconditionally; any other outcome is returned unchanged")
+	c.Rule("C04.respec", "A1: EvalBinaryNode.eval: a node without an evaluation function refreshes the operand types from the current scope and looks the function up again before reporting a mismatch (the answer for a point never depends on earlier points' types); a type-guard error rewrites exactly the side(s) named by the error with ActualType, re-looks-up and retries (whatever the lookup gave) unless the retry budget is spent, in which case the guard error is returned; any other outcome is returned unchanged")
 	c.Rule("C04.arity", "A1: EvalFunctionNode.Type rejects a call as having too many arguments exactly when the number of arguments exceeds the size of the signature domain (a call with exactly that many is type-checked against the signatures); every argument's type is written at its own index")
 	c.Rule("C04.dynamic", "A2: evaluateDynamicNode stores both operand types obtained from Type() before lookupEvaluationFn, and looks up before eval; a Type() error is returned with the right side flag")
 	c.Rule("C04.lookup", "A3: lookupEvaluationFn indexes evaluationFuncs with operationKey{operator: n.operator, leftType: n.leftType, rightType: n.rightType}; Type() of a dynamic node looks binaryConstantTypes up with the same three fields and never stores constReturnType")
@@ -569,9 +569,33 @@ func c04Respec(c *core.Ctx, pkg *packages.Package) {
 		return ""
 	}
 	if fn := c.Need("C04.respec", "tick/stateful", "EvalBinaryNode", "eval"); fn != nil {
+		// eval may be a one-line entry that hands over to the method doing the work (with a retry counter): analyse that one
+		if body := an.Effective(fn.Decl.Body.List); len(body) == 1 {
+			if ret, ok := body[0].(*ast.ReturnStmt); ok && len(ret.Results) == 1 {
+				if call, ok := ret.Results[0].(*ast.CallExpr); ok {
+					if callee := core.Callee(info, call); callee != nil && core.RecvTypeName(callee) == "EvalBinaryNode" {
+						if w := c.Need("C04.respec", "tick/stateful", "EvalBinaryNode", callee.Name()); w != nil {
+							fn = w
+						}
+					}
+				}
+			}
+		}
+		self, _ := info.Defs[fn.Decl.Name].(*types.Func)
+		var intParams []string
+		for _, fl := range fn.Decl.Type.Params.List {
+			for _, nm := range fl.Names {
+				if b, ok := info.Defs[nm].Type().Underlying().(*types.Basic); ok && b.Info()&types.IsInteger != 0 {
+					intParams = append(intParams, nm.Name)
+				}
+			}
+		}
 		eng := &an.Engine{Prog: c.P, TrackStore: store,
 			TrackCall: func(call *ast.CallExpr, callee *types.Func) string {
 				if callee != nil && core.RecvTypeName(callee) == "EvalBinaryNode" {
+					if callee == self {
+						return "eval"
+					}
 					switch callee.Name() {
 					case "lookupEvaluationFn", "eval", "determineError":
 						return callee.Name()
@@ -583,6 +607,14 @@ func c04Respec(c *core.Ctx, pkg *packages.Package) {
 				return ""
 			},
 			Classify: func(a an.Atom) (string, bool) {
+				for _, q := range intParams {
+					switch {
+					case (a.Op == token.GEQ || a.Op == token.GTR) && a.L == q:
+						return "exhausted", false
+					case (a.Op == token.LSS || a.Op == token.LEQ) && a.L == q:
+						return "exhausted", true
+					}
+				}
 				switch {
 				case a.Op == token.EQL && a.R == "nil" && a.LX != nil && isField(a.LX, "evaluationFn"):
 					if strings.Contains(a.L, "#") {
@@ -606,7 +638,15 @@ func c04Respec(c *core.Ctx, pkg *packages.Package) {
 		if err != nil {
 			c.Undecided("C04.respec", "EvalBinaryNode.eval", fn.Decl.Pos(), "%v", err)
 		}
-		an.CheckTable(c, "C04.respec", "EvalBinaryNode.eval", paths, an.Table{Atoms: []string{"nofn", "err", "guard", "isLeft", "isRight", "nofn2"},
+		atoms := []string{"nofn", "err", "guard", "isLeft", "isRight", "nofn2"}
+		if len(intParams) > 0 {
+			atoms = append(atoms, "exhausted")
+		}
+		selfName := ""
+		if self != nil {
+			selfName = "." + self.Name() + "("
+		}
+		an.CheckTable(c, "C04.respec", "EvalBinaryNode.eval", paths, an.Table{Atoms: atoms,
 			Outcome: func(p *an.Path) string {
 				var s []string
 				for _, e := range p.Events {
@@ -639,14 +679,14 @@ func c04Respec(c *core.Ctx, pkg *packages.Package) {
 					switch {
 					case strings.HasSuffix(r0, ".0") && strings.HasSuffix(r1, ".1") && strings.Contains(r0, "evaluationFn("):
 						r = "ret:fnresult"
-					case strings.Contains(r0, ".eval(") || (len(p.RetX) == 1):
+					case strings.Contains(r0, ".eval(") || (selfName != "" && strings.Contains(r0, selfName)) || (len(p.RetX) == 1):
 						r = "ret:retry"
 					case strings.HasSuffix(r1, ".1") && strings.Contains(r1, "evaluationFn("):
 						r = "ret:err"
 					case strings.Contains(r1, "determineError("):
 						r = "ret:nofnerr"
 					}
-				} else if len(p.Rets) == 1 && strings.Contains(r0, ".eval(") {
+				} else if len(p.Rets) == 1 && (strings.Contains(r0, ".eval(") || (selfName != "" && strings.Contains(r0, selfName))) {
 					r = "ret:retry"
 				}
 				return strings.Join(append(s, r), ",")
@@ -666,6 +706,10 @@ func c04Respec(c *core.Ctx, pkg *packages.Package) {
 				s = append(s, "CALLFN")
 				if !a["err"] || !a["guard"] {
 					return strings.Join(append(s, "ret:fnresult"), ",")
+				}
+				if a["exhausted"] {
+					// the retry budget is spent (an operand whose Type and Eval* disagree): the guard error is the answer
+					return strings.Join(append(s, "ret:err"), ",")
 				}
 				if a["isLeft"] {
 					s = append(s, "leftType=ActualType")
